@@ -20,7 +20,7 @@ def run_one(sid, seed):
         a = subprocess.run(["git", "-C", wt, "apply", os.path.join(d, "patch.diff")], capture_output=True)
         if a.returncode != 0:
             return sid, pid, None, "patch does not apply: " + a.stderr.decode()[-200:]
-        env = dict(os.environ, SB3_REPO=wt)
+        env = dict(os.environ, SB3_REPO=wt, VERIF_REPLAY_TAG=sid)
         p = subprocess.run([os.path.join(V, "check"), pid, "--tier", "quick", "--seed", str(seed), "--jobs", "3"], cwd=V, env=env,
                            capture_output=True, timeout=3000)
         out = p.stdout.decode(errors="replace")
@@ -28,12 +28,29 @@ def run_one(sid, seed):
         meta["check_result"] = {"cmd": f"SB3_REPO=<worktree of /repo HEAD with patch.diff applied> ./check {pid} --tier quick --seed {seed}",
                                 "exit": p.returncode, "first_line": line[:300]}
         json.dump(meta, open(os.path.join(d, "meta.json"), "w"), indent=1)
+        if CORPUS and p.returncode == 1:
+            # keep the shrunk failing input as a regression case of the property (it passes on the unchanged tree)
+            m = [w for w in line.split() if w.startswith("replay=")]
+            rp = os.path.join(V, m[0][7:]) if m else None
+            if rp and os.path.exists(rp) and "unverified" not in rp:
+                r = json.load(open(rp))
+                if r.get("case") is not None:
+                    os.makedirs(os.path.join(V, "corpus", pid), exist_ok=True)
+                    json.dump({"case": r["case"], "origin": f"shrunk failing input of seeded change {sid} (passes on the unchanged tree)"},
+                              open(os.path.join(V, "corpus", pid, "seeded_" + sid.replace("-", "_") + ".json"), "w"))
         return sid, pid, p.returncode, line[:120]
     finally:
         subprocess.run(["git", "-C", "/repo", "worktree", "remove", "--force", wt], capture_output=True)
 
+CORPUS = False
+
+
 def main():
+    global CORPUS
     args = sys.argv[1:]
+    if "--corpus" in args:
+        CORPUS = True
+        args.remove("--corpus")
     seed, jobs = 0, 3
     if "--seed" in args:
         i = args.index("--seed"); seed = int(args[i + 1]); del args[i:i + 2]
